@@ -8,6 +8,7 @@
 package lifex
 
 import (
+	"context"
 	"errors"
 	"fmt"
 	"net"
@@ -32,7 +33,7 @@ const StallBound = 8 * time.Second
 type Step struct {
 	Kind string // p-send, p-close, p-reset, p-half, h (handler directive on the next OnTraffic), x-wake, x-close, x-closecb, x-asyncwrite, pause, burst
 	N    int
-	Dir  string // for h: none, consume, action-close, conn-close, closecb, loop-close, write
+	Dir  string // for h: none, consume, action-close, conn-close, closecb, loop-close, conn-close+task, write
 	Sub  []Step // for burst: started concurrently
 }
 
@@ -210,6 +211,20 @@ func (c *Conn) OnTraffic(gc gnet.Conn) gnet.Action {
 			c.InsideClose = true
 			atomic.AddInt32(&c.CBIssued, 1)
 			_ = gc.CloseWithCallback(c.closeCB)
+		case "conn-close+task":
+			// Close() followed by a task: when this OnTraffic belongs to an edge-triggered read that
+			// filled the buffer, the loop queues a re-read behind both; the task runs in between, on a
+			// loop that has just released the descriptor number, and puts readable bait there.
+			atomic.StoreInt32(&c.LocalIssued, 1)
+			c.InsideClose = true
+			fd := gc.Fd()
+			_ = gc.Close()
+			_ = gc.EventLoop().Execute(context.Background(), gnet.RunnableFunc(func(context.Context) error {
+				if c.Closed() {
+					c.sess.placeCanary("by a task queued right behind Conn.Close inside OnTraffic", fd)
+				}
+				return nil
+			}))
 		case "loop-close":
 			atomic.StoreInt32(&c.LocalIssued, 1)
 			c.InsideClose = true
@@ -345,7 +360,7 @@ func (c *Canary) Verify() string {
 }
 
 func (s *Session) placeCanary(where string, wantFd int) {
-	if !s.Hooks.Canaries {
+	if !s.Hooks.Canaries && !(s.Hooks.Bait && strings.HasPrefix(where, "by a task")) {
 		return
 	}
 	// grab a few pairs; keep the ones that landed on interesting numbers (or the first)
@@ -486,6 +501,8 @@ type Hooks struct {
 	NoStop    bool
 	// Canaries: place harness-owned socket pairs on descriptor numbers the framework just released.
 	Canaries bool
+	// Bait: only the canaries that a "conn-close+task" directive places (a stale re-read would consume them).
+	Bait bool
 }
 
 func (s *Session) addFail(f string)  { s.mu.Lock(); s.Fails = append(s.Fails, f); s.mu.Unlock() }
@@ -859,7 +876,7 @@ func Run(cs Case, hooks Hooks) *Session {
 
 // ---- generation -----------------------------------------------------------------------------
 
-var closeDirs = []string{"action-close", "conn-close", "closecb", "loop-close"}
+var closeDirs = []string{"action-close", "conn-close", "closecb", "loop-close", "conn-close+task"}
 
 func drawCause(t *rapid.T) Step {
 	switch rapid.IntRange(0, 9).Draw(t, "cause") {
